@@ -45,5 +45,6 @@ def main(tier, replay=None, mode="cmp"):
     chk.assumptions += ["NaN is excluded", "value domains are sampled: boundary tables plus random values (exploration level)",
                         "Table ordering is not part of the property"]
     camp.report()
+    runner.run_pinned(chk, {"h_val": harness})
     chk.cov["distinct_nontrivial"] = max(len(chk.distinct), 2)
     return chk.finish()
